@@ -53,14 +53,48 @@ class Findings(object):
                 raise HarnessError("known finding %s names unknown predicate %s"
                                    % (e["id"], e["predicate"]))
 
-    def match(self, clause, case, detail=""):
+    def match(self, clause, case, detail="", info=None):
         """Return the id of the open finding that explains this violation."""
         for e in self.entries:
-            if e["clause"] != clause:
+            clauses = e.get("clauses") or [e["clause"]]
+            if clause not in clauses:
                 continue
-            if self.predicates[e["predicate"]](case, detail):
+            if self.predicates[e["predicate"]](case, detail, info or {}):
                 return e["id"]
         return None
+
+
+def behave_origin(tb):
+    """If the innermost frame of a traceback lies in behave's own source (BEHAVE_SRC/behave),
+    return "function@file"; else None."""
+    import vf
+    root = os.path.join(os.path.realpath(vf.BEHAVE_SRC), "behave") + os.sep
+    frames = traceback.extract_tb(tb)
+    if not frames:
+        return None
+    last = frames[-1]
+    filename = os.path.realpath(last.filename)
+    if filename.startswith(root):
+        return "%s@%s" % (last.name, os.path.relpath(filename, root))
+    return None
+
+
+def safe_check(mod, case):
+    """Run mod.check(case).  An exception whose innermost frame is inside behave's own code
+    (behave failed internally on an input the check considers valid) is reported as a
+    violation of "<ID>.behave-internal-error"; any other exception is a harness error
+    (returned as dict)."""
+    try:
+        return mod.check(case)
+    except Exception as e:
+        origin = behave_origin(e.__traceback__)
+        if origin and not isinstance(e, HarnessError):
+            res = CaseResult()
+            res.fail("%s.behave-internal-error" % mod.ID,
+                     "%s: %s raised inside behave (%s)" % (type(e).__name__, str(e)[:300], origin),
+                     origin=origin, exc=type(e).__name__)
+            return res
+        return {"case": abbreviate(case, 3000), "trace": traceback.format_exc()}
 
 
 # ---------------------------------------------------------------------------
@@ -88,12 +122,10 @@ class Recorder(object):
 
     # -- recording --------------------------------------------------------
     def record(self, case, sub="main"):
-        try:
-            res = self.mod.check(case)
-        except Exception:   # harness problem, not a property violation
+        res = safe_check(self.mod, case)
+        if isinstance(res, dict):       # harness problem, not a property violation
             if len(self.harness_errors) < 3:
-                self.harness_errors.append(
-                    {"case": abbreviate(case, 3000), "trace": traceback.format_exc()})
+                self.harness_errors.append(res)
             return None
         self.note(case, res, sub)
         return res
@@ -112,7 +144,7 @@ class Recorder(object):
                     self._sample_subs.add(sub)
                     self.samples.append({"subcheck": sub, "case": abbreviate(case)})
         for v in res.violations:
-            known = self.findings.match(v.clause, case, v.detail)
+            known = self.findings.match(v.clause, case, v.detail, v.info)
             key = (v.clause, known)
             size = len(canon(case))
             cur = self.buckets.get(key)
@@ -279,11 +311,13 @@ def shrink(mod, case, clause, findings, budget_s=25.0, max_evals=1500):
         try:
             if not valid(cand):
                 return None
-            res = mod.check(cand)
+            res = safe_check(mod, cand)
+            if isinstance(res, dict):
+                return None
         except Exception:
             return None
         for v in res.violations:
-            if v.clause == clause and findings.match(v.clause, cand, v.detail) is None:
+            if v.clause == clause and findings.match(v.clause, cand, v.detail, v.info) is None:
                 return v.detail
         return None
 
@@ -353,10 +387,12 @@ def load_replay(path):
 def run_replay_file(mod, findings, path):
     """Returns list of (clause, detail, known_id)."""
     data = load_replay(path)
-    res = mod.check(data["case"])
+    res = safe_check(mod, data["case"])
+    if isinstance(res, dict):
+        raise HarnessError("replay %s: %s" % (path, res["trace"]))
     out = []
     for v in res.violations:
-        out.append((v.clause, v.detail, findings.match(v.clause, data["case"], v.detail)))
+        out.append((v.clause, v.detail, findings.match(v.clause, data["case"], v.detail, v.info)))
     return data, out
 
 
